@@ -117,6 +117,24 @@ def run(tier="quick", seed=1, replay=None):
                 cov["transitions"] += r["generated"]
                 cov["configs"].append(dict(config=c["name"], cells=c["cells"], window=c["w"], maxops=ops,
                                            distinct=r["distinct"], generated=r["generated"]))
+            # ---- 1b. design level: the cell-level model refines the reference (lockstep, exhaustive, small bound); the pinned
+            #          defrag (metadata order reversed in coalesced moves) is the one configuration that must NOT pass
+            REF = ("INIT CInit\nNEXT CNext\nVIEW CView\nINVARIANT AbsOk\nINVARIANT OneCellPerEntry\nINVARIANT RangesCover\n"
+                   "INVARIANT DataMatchesMeta\nINVARIANT CanResumeAgrees\nCHECK_DEADLOCK FALSE\n")
+            cov["refinement"] = []
+            for nm, cells, w, shift, ops in ([("c4w0", 4, 0, True, 6), ("c4w2", 4, 2, True, 6)] if quick else
+                                             [("c4w0", 4, 0, True, 6), ("c4w2", 4, 2, True, 6), ("c5w0", 5, 0, True, 5), ("c5w2ns", 5, 2, False, 5), ("c5w1", 5, 1, True, 5)]):
+                k = {"SeqIds": "{0, 1}", "Cells": cells, "MaxBatch": 3 if cells > 4 else 2, "MaxOps": ops, "Window": w, "CanShift": vf.tla_bool(shift),
+                     "Overfull": "TRUE", "CodeAsIs": "FALSE", "DefragAsPinned": "FALSE"}
+                r = vf.tlc("KvCells", vf.write_cfg(wd, f"MC_KvCells_{nm}.cfg", k, REF), wd, timeout=2400)
+                vf.tlc_must_pass(r, f"KvCells refines KvRef ({nm})")
+                cov["states"] += r["distinct"]
+                cov["transitions"] += r["generated"]
+                cov["refinement"].append(dict(config=nm, distinct=r["distinct"], generated=r["generated"]))
+            k = {"SeqIds": "{0, 1}", "Cells": 5, "MaxBatch": 3, "MaxOps": 5, "Window": 0, "CanShift": "TRUE", "Overfull": "TRUE", "CodeAsIs": "FALSE", "DefragAsPinned": "TRUE"}
+            r = vf.tlc("KvCells", vf.write_cfg(wd, "MC_KvCells_pinned.cfg", k, REF), wd, timeout=2400)
+            if "Invariant DataMatchesMeta is violated" not in r["out"]:
+                raise vf.Inconclusive("KvCells.tla with the pinned defrag no longer violates DataMatchesMeta:\n" + r["out"][-1200:])
             # ---- 2. generate behaviours
             tid = 0
             for ci, c in enumerate(CONFIGS):
@@ -179,6 +197,32 @@ def run(tier="quick", seed=1, replay=None):
                        "CopyPrefix/Remove; distinct by full operation sequence")
         for _, tr in traces[:2] + traces[-1:]:
             cov["samples"].append(tr[:6])
+        # ---- 4b. cell-level conformance with KvCells.tla, one run per cache geometry (plain Causal caches only)
+        groups = {}
+        for start, tr in traces:
+            h = tr[0]
+            if h.get("wrapped") or not any("snap" in r for r in tr):
+                continue
+            groups.setdefault((h["cells"], h["w"], bool(h["shift"])), []).extend(tr)
+        cell_drift = {}
+        cov["cell_level"] = []
+        for (cells, w, shift), grecs in sorted(groups.items()):
+            gname = f"cells{cells}_w{w}_{'shift' if shift else 'noshift'}"
+            gpath = os.path.join(wd, f"trace_{gname}.ndjson")
+            with open(gpath, "w") as f:
+                for r in grecs:
+                    f.write(json.dumps({k: v for k, v in r.items() if k != "vis"}) + "\n")
+            with open(os.path.join(wd, f"Trace_KvCells_{gname}.cfg"), "w") as f:
+                f.write(f"CONSTANTS SeqIds = {{0, 1, 2}} Cells = {cells} MaxBatch = 3 MaxOps = 0 Window = {w} CanShift = {vf.tla_bool(shift)} "
+                        f"Overfull = TRUE CodeAsIs = FALSE DefragAsPinned = FALSE\nINIT TInit\nNEXT Step\nPOSTCONDITION Accepted\nCHECK_DEADLOCK FALSE\n")
+            cv = vf.validate_trace("Trace_KvCells", f"Trace_KvCells_{gname}.cfg", gpath, wd, timeout=1800)
+            for _, _, fl in cv["drift"]:
+                for x in fl:
+                    cell_drift[x] = cell_drift.get(x, 0) + 1
+            cov["cell_level"].append(dict(geometry=gname, calls=len(grecs), drift_lines=len(cv["drift"])))
+        if cell_drift:
+            res.note(f"cell-level drift (real cache differs from KvCells.tla): {cell_drift}")
+        cov["cell_drift"] = cell_drift
         # ---- 5. classify
         known = vf.load_findings(PROP)
         seen_t = set()
@@ -214,7 +258,7 @@ def run(tier="quick", seed=1, replay=None):
         cov["drift"] = drift_kinds
         cov["violating_traces"] = len(seen_t)
         cov["distinct_violating_prefixes"] = len(seen_prefix)
-        cov["checker_cmd"] = "tlc Trace_Kv.tla (VF_TRACE=<recorded ndjson>) ; tlc KvRef.tla"
+        cov["checker_cmd"] = "tlc KvRef.tla ; tlc KvCells.tla (refinement) ; tlc Trace_Kv.tla ; tlc Trace_KvCells.tla (per geometry)"
     vf.write_evidence(PROP, tier, seed, "model_checking", cov, time.time() - t0,
                       violations=len(res.violations),
                       assumptions=["fake ml.Backend executes tensor copies eagerly in program order",
